@@ -1,11 +1,49 @@
 /-
 C13 property theorems (statements only; helper lemmas are in Lemmas*.lean).
 -/
-import BV.C13.Model
+import BV.C13.LemmasMerkle
 import BV.Generated.C13
 namespace BV.C13
 open Spec
 
+/-! ### merkle roots: every construction path equals the protocol root, for every leaf list and
+    every node hash `H` (kept abstract: nothing depends on SHA-256) -/
+
+/-- `BuildMerkleTreeStore`: the last element of the linear store is the protocol root. -/
+theorem store_root_eq_spec {α : Type} (H : α → α → α) (zero : α) (l : List α) (h : l ≠ []) :
+    storeRoot H zero l = some (mroot H zero l) := Lemmas.storeRoot_eq_spec H zero l h
+
+/-- `CalcMerkleRoot` (rolling, O(log n) roots): never panics and returns the protocol root. -/
+theorem rolling_root_eq_spec {α : Type} (H : α → α → α) (zero : α) (l : List α) (h : l ≠ []) :
+    rollingRoot H zero l = some (mroot H zero l) := Lemmas.rollingRoot_eq_spec H zero l h
+
+/-- Both paths on EVERY list of 0..N leaves (the empty list after the `fix:` guard). -/
+theorem merkle_paths_eq_spec {α : Type} (H : α → α → α) (zero : α) (l : List α) :
+    storeRoot H zero l = some (mroot H zero l) ∧ rollingRoot H zero l = some (mroot H zero l) := by
+  by_cases h : l = []
+  · subst h; simp [storeRoot, buildStore, rollingRoot, Lemmas.mroot_nil]
+  · exact ⟨store_root_eq_spec H zero l h, rolling_root_eq_spec H zero l h⟩
+
+/-- Witness form: both paths return the root over `0 :: wtxid(tx₁) :: … :: wtxid(txₙ₋₁)`. -/
+theorem witness_root_eq_spec {α τ : Type} (H : α → α → α) (zero : α) (txid wtxid : τ → α)
+    (cb : τ) (rest : List τ) :
+    storeRoot H zero (leafHashes txid wtxid zero true (cb :: rest)) =
+        some (mroot H zero (zero :: rest.map wtxid)) ∧
+    rollingRoot H zero (leafHashes txid wtxid zero true (cb :: rest)) =
+        some (mroot H zero (zero :: rest.map wtxid)) :=
+  merkle_paths_eq_spec H zero _
+
+/-- The protocol root of an odd level duplicates its last node (CVE-2012-2459 shape): appending
+    a copy of the last leaf to an odd list of ≥ 3 leaves does not change the root. -/
+theorem mroot_dup_last {α : Type} (H : α → α → α) (zero : α) (l : List α) (x : α)
+    (h2 : 2 ≤ l.length) (he : l.length % 2 = 0) :
+    mroot H zero (l ++ [x] ++ [x]) = mroot H zero (l ++ [x]) :=
+  Lemmas.mroot_dup H zero 0 (l.length / 2) l [x] (by omega) (by rw [Nat.pow_zero]; omega) rfl
+
+example : storeRoot (fun a b : Nat => 10 * a + b) 0 [1, 2, 3] = some 153 := by
+  rw [store_root_eq_spec _ 0 [1, 2, 3] (by simp)]; simp [mroot, pairUp]
+
+/-! ### pinning of regenerated facts (T2) -/
 set_option maxRecDepth 100000 in
 theorem pin_opcodeLengths : Generated.C13.opcodeLengths = (List.range 256).map opLen := by decide
 
